@@ -62,7 +62,7 @@ class C01(IRProp):
     id = "C01"
     prop_file = "Properties/C01.v"
     tag = "c01"
-    genopts = dict(with_cfi=False)
+    genopts = dict(with_cfi=False, with_lead=True)
     trusted_base = IRProp.base_trusted
     assumptions = ["modifications of one block do not overlap (resolve_offsets asserts it)",
                    "theorem C01_apply_modifications excludes work lists that delete a whole prefix of a block and then edit again at its new "
@@ -83,6 +83,9 @@ class C01(IRProp):
         aligns = sorted(set(m.aux_data["alignment"].data.values()) | set(case.align.values()))
         for sect in m.sections:
             actual = b"".join(bytes(bi.contents) for bi in sorted(sect.byte_intervals, key=lambda b: b.address or 0))
+            if actual[:case.lead] != b"\xcc" * case.lead:
+                return [dict(what=f"section {sect.name}: the {case.lead} bytes in front of the first block changed: {actual.hex()}")]
+            actual = actual[case.lead:]
             if not match_with_padding(actual, chunks, aligns):
                 return [dict(what=f"section {sect.name}: bytes {actual.hex()} are not the listing edit {[c.hex() for c, _ in chunks]}")]
         return []
